@@ -15,15 +15,34 @@ import (
 // ---------------------------------------------------------------------------
 // scripted renderers: emit a known numbered sequence from 1..P producers
 
+// poison items: what a producer that reuses its batch slice leaves in it after Write returned
+var poisonTri = &sdf.Triangle3{{X: -777, Y: 777, Z: -777}, {X: 777, Y: -777, Z: 777}, {X: -777, Y: -777, Z: 777}}
+var poisonLine = &sdf.Line2{{X: -777, Y: 777}, {X: 777, Y: -777}}
+
 type script3 struct {
-	stall   time.Duration // real-time pause after the first batch
-	closeAt map[int]bool  // single producer: call Close() before writing batch i
-	pre     func()        // runs first thing in Render (fault injection)
-	jid     uint32
-	batches [][][]*sdf.Triangle3 // per producer
+	reuse      bool          // every batch is written from one scratch slice that is overwritten after Write returns
+	closeTwice bool          // Close is called twice at the end
+	stall      time.Duration // real-time pause after the first batch
+	closeAt    map[int]bool  // single producer: call Close() before writing batch i
+	pre        func()        // runs first thing in Render (fault injection)
+	jid        uint32
+	batches    [][][]*sdf.Triangle3 // per producer
 }
 
 func (r *script3) Info(s sdf.SDF3) string { return "scripted" }
+
+// write hands one batch to the writer, from a reused scratch slice if asked to.
+func (r *script3) write(out sdf.Triangle3Writer, b []*sdf.Triangle3, scratch *[]*sdf.Triangle3) {
+	if !r.reuse || b == nil {
+		out.Write(b)
+		return
+	}
+	*scratch = append((*scratch)[:0], b...)
+	out.Write(*scratch)
+	for i := range *scratch {
+		(*scratch)[i] = poisonTri
+	}
+}
 
 func (r *script3) Render(s sdf.SDF3, out sdf.Triangle3Writer) {
 	if r.pre != nil {
@@ -31,12 +50,13 @@ func (r *script3) Render(s sdf.SDF3, out sdf.Triangle3Writer) {
 	}
 	if len(r.batches) <= 1 {
 		if len(r.batches) == 1 {
+			var scratch []*sdf.Triangle3
 			for bi, b := range r.batches[0] {
 				simcore.Yield(simcore.Label{Site: SProd, Job: r.jid, A: 0, B: uint64(bi)})
 				if r.closeAt[bi] {
 					out.Close() // a renderer may flush in the middle of its output
 				}
-				out.Write(b)
+				r.write(out, b, &scratch)
 				if bi == 0 && r.stall > 0 {
 					time.Sleep(r.stall)
 				}
@@ -49,9 +69,10 @@ func (r *script3) Render(s sdf.SDF3, out sdf.Triangle3Writer) {
 			go func(p int) {
 				defer wg.Done()
 				simcore.SetCtx(simcore.Ctx{Job: r.jid, Sub: uint64(p)})
+				var scratch []*sdf.Triangle3
 				for bi, b := range r.batches[p] {
 					simcore.Yield(simcore.Label{Site: SProd, Job: r.jid, A: uint64(p), B: uint64(bi)})
-					out.Write(b)
+					r.write(out, b, &scratch)
 				}
 			}(p)
 		}
@@ -59,17 +80,34 @@ func (r *script3) Render(s sdf.SDF3, out sdf.Triangle3Writer) {
 	}
 	simcore.Yield(simcore.Label{Site: SClose, Job: r.jid})
 	out.Close()
+	if r.closeTwice {
+		out.Close() // harmless by the writers' contract: nothing is pending
+	}
 }
 
 type script2 struct {
-	stall   time.Duration
-	closeAt map[int]bool
-	pre     func()
-	jid     uint32
-	batches [][][]*sdf.Line2
+	reuse      bool
+	closeTwice bool
+	stall      time.Duration
+	closeAt    map[int]bool
+	pre        func()
+	jid        uint32
+	batches    [][][]*sdf.Line2
 }
 
 func (r *script2) Info(s sdf.SDF2) string { return "scripted" }
+
+func (r *script2) write(out sdf.Line2Writer, b []*sdf.Line2, scratch *[]*sdf.Line2) {
+	if !r.reuse || b == nil {
+		out.Write(b)
+		return
+	}
+	*scratch = append((*scratch)[:0], b...)
+	out.Write(*scratch)
+	for i := range *scratch {
+		(*scratch)[i] = poisonLine
+	}
+}
 
 func (r *script2) Render(s sdf.SDF2, out sdf.Line2Writer) {
 	if r.pre != nil {
@@ -77,12 +115,13 @@ func (r *script2) Render(s sdf.SDF2, out sdf.Line2Writer) {
 	}
 	if len(r.batches) <= 1 {
 		if len(r.batches) == 1 {
+			var scratch []*sdf.Line2
 			for bi, b := range r.batches[0] {
 				simcore.Yield(simcore.Label{Site: SProd, Job: r.jid, A: 0, B: uint64(bi)})
 				if r.closeAt[bi] {
 					out.Close()
 				}
-				out.Write(b)
+				r.write(out, b, &scratch)
 				if bi == 0 && r.stall > 0 {
 					time.Sleep(r.stall)
 				}
@@ -95,9 +134,10 @@ func (r *script2) Render(s sdf.SDF2, out sdf.Line2Writer) {
 			go func(p int) {
 				defer wg.Done()
 				simcore.SetCtx(simcore.Ctx{Job: r.jid, Sub: uint64(p)})
+				var scratch []*sdf.Line2
 				for bi, b := range r.batches[p] {
 					simcore.Yield(simcore.Label{Site: SProd, Job: r.jid, A: uint64(p), B: uint64(bi)})
-					out.Write(b)
+					r.write(out, b, &scratch)
 				}
 			}(p)
 		}
@@ -105,6 +145,9 @@ func (r *script2) Render(s sdf.SDF2, out sdf.Line2Writer) {
 	}
 	simcore.Yield(simcore.Label{Site: SClose, Job: r.jid})
 	out.Close()
+	if r.closeTwice {
+		out.Close() // harmless by the writers' contract: nothing is pending
+	}
 }
 
 // ---------------------------------------------------------------------------
@@ -118,6 +161,7 @@ type tapWriter3 struct {
 }
 
 func (w *tapWriter3) Write(in []*sdf.Triangle3) error {
+	simcore.Progress.Add(1)
 	if len(in) > 0 {
 		simcore.Yield(simcore.Label{Site: SWrite, Job: w.jid, A: w.n})
 		w.n++
@@ -159,6 +203,7 @@ type tapWriter2 struct {
 }
 
 func (w *tapWriter2) Write(in []*sdf.Line2) error {
+	simcore.Progress.Add(1)
 	if len(in) > 0 {
 		simcore.Yield(simcore.Label{Site: SWrite, Job: w.jid, A: w.n})
 		w.n++
@@ -237,6 +282,7 @@ func (w *ySDF3) Evaluate(p v3.Vec) float64 {
 	if w.setCtx {
 		old = simcore.SetCtx(simcore.Ctx{Job: w.jid, Sub: h})
 	}
+	simcore.Progress.Add(1)
 	simcore.Yield(simcore.Label{Site: SEvalPre, Job: w.jid, A: h})
 	w.slow.tick()
 	d := w.inner.Evaluate(p)
@@ -261,6 +307,7 @@ func (w *ySDF2) Evaluate(p v2.Vec) float64 {
 	if w.setCtx {
 		old = simcore.SetCtx(simcore.Ctx{Job: w.jid, Sub: h})
 	}
+	simcore.Progress.Add(1)
 	simcore.Yield(simcore.Label{Site: SEvalPre, Job: w.jid, A: h})
 	w.slow.tick()
 	d := w.inner.Evaluate(p)
